@@ -99,25 +99,86 @@ class Transport(StringTransportWithDisconnection):
         return getattr(self, "nodelay", False)
 
 
-class WsWorld:
-    def __init__(self):
-        self.log = []          # (opcode name, payload) seen by the endpoint (without the non-standard Open)
+class Conn:
+    """One TCP connection to the real HTTPFactory (its own channel, transport, endpoint log)."""
+
+    def __init__(self, world, n):
+        self.w = world
+        self.log = []          # (opcode name, payload) seen by the endpoint for THIS connection (without the non-standard Open)
         self.opened = 0
         self.errors = []       # exceptions out of channel.dataReceived
+        self.sock = None
+        self.close_at = None   # the endpoint starts a server side close when it has seen this many frames
+        peer = IPv4Address("TCP", "10.9.0.%d" % (1 + n), 50000 + n)
+        ch = world.factory.buildProtocol(peer)
+        if getattr(ch, "factory", None) is None:
+            ch.factory = world.factory
+        ch.callLater = world.clock.callLater
+        self.transport = Transport(peerAddress=peer, hostAddress=IPv4Address("TCP", "10.9.0.200", 80))
+        self.transport.protocol = ch
+        ch.makeConnection(self.transport)
+        self.channel = ch
+
+    def upgrade(self):
+        req = (b"GET /ws HTTP/1.1\r\nHost: example\r\nUpgrade: websocket\r\nConnection: Upgrade\r\n"
+               b"Sec-WebSocket-Key: dGhlIHNhbXBsZSBub25jZQ==\r\nSec-WebSocket-Version: 13\r\n\r\n")
+        self.w.upgrading = self
+        self.channel.dataReceived(req)
+        self.w.upgrading = None
+        out = self.transport.value()
+        self.transport.clear()
+        return out
+
+    def feed(self, chunk):
+        try:
+            self.channel.dataReceived(chunk)
+        except Exception as e:      # noqa: twisted would log it and drop the connection
+            self.errors.append("%s: %s" % (type(e).__name__, str(e)[:80]))
+            return False
+        return True
+
+    def written(self):
+        return self.transport.value()
+
+
+class WsWorld:
+    def __init__(self):
         self.echo = True
+        self.conns = []
+        self.by_sock = {}
+        self.upgrading = None
+        self.strays = []       # endpoint calls that belong to no connection of this world
         w = self
 
         class Echo(http_mod.Resource):
             @http_mod.websocket("/ws")
             def ws(self, sock, opcode, payload):
                 if opcode == http_mod.WebSocketOpCode.Open:
-                    w.opened += 1
-                    w.sock = sock
+                    c = w.upgrading
+                    if c is None:
+                        w.strays.append(("Open", None))
+                        return
+                    c.opened += 1
+                    c.sock = sock
+                    w.by_sock[id(sock)] = c
                     return
-                w.log.append((opcode.name(), payload))
+                c = w.by_sock.get(id(sock))
+                if c is None:
+                    w.strays.append((opcode.name(), payload))
+                    return
+                c.log.append((opcode.name(), payload))
                 if w.echo and opcode == http_mod.WebSocketOpCode.Text:
                     sock.send(payload)
+                if c.close_at is not None and len(c.log) == c.close_at:
+                    sock.close()
         self.resource = Echo()
+
+    # the first connection doubles as "the" connection of single-connection cases
+    log = property(lambda self: self.conns[0].log)
+    opened = property(lambda self: self.conns[0].opened)
+    errors = property(lambda self: self.conns[0].errors)
+    transport = property(lambda self: self.conns[0].transport)
+    channel = property(lambda self: self.conns[0].channel)
 
     def __enter__(self):
         self._saved_time = http_mod.time
@@ -133,17 +194,14 @@ class WsWorld:
         router = http_mod.Router()
         router.registerRoutes(self.resource.routes())
         self.clock = task.Clock()
-        factory = http_mod.HTTPFactory(router=router)
-        ch = factory.buildProtocol(IPv4Address("TCP", "10.9.0.1", 50000))
-        if getattr(ch, "factory", None) is None:
-            ch.factory = factory
-        ch.callLater = self.clock.callLater
-        self.transport = Transport(peerAddress=IPv4Address("TCP", "10.9.0.1", 50000),
-                                   hostAddress=IPv4Address("TCP", "10.9.0.2", 80))
-        self.transport.protocol = ch
-        ch.makeConnection(self.transport)
-        self.channel = ch
+        self.factory = http_mod.HTTPFactory(router=router)
+        self.connect()
         return self
+
+    def connect(self):
+        c = Conn(self, len(self.conns))
+        self.conns.append(c)
+        return c
 
     def __exit__(self, *exc):
         self._stdout.__exit__(None, None, None)
@@ -155,20 +213,10 @@ class WsWorld:
         return False
 
     def upgrade(self):
-        req = (b"GET /ws HTTP/1.1\r\nHost: example\r\nUpgrade: websocket\r\nConnection: Upgrade\r\n"
-               b"Sec-WebSocket-Key: dGhlIHNhbXBsZSBub25jZQ==\r\nSec-WebSocket-Version: 13\r\n\r\n")
-        self.channel.dataReceived(req)
-        out = self.transport.value()
-        self.transport.clear()
-        return out
+        return self.conns[0].upgrade()
 
     def feed(self, chunk):
-        try:
-            self.channel.dataReceived(chunk)
-        except Exception as e:      # noqa: twisted would log it and drop the connection
-            self.errors.append("%s: %s" % (type(e).__name__, str(e)[:80]))
-            return False
-        return True
+        return self.conns[0].feed(chunk)
 
     def written(self):
-        return self.transport.value()
+        return self.conns[0].written()
